@@ -29,7 +29,11 @@ mutual
     | .ifE c cons (some a) => pureE c && pureSs cons && pureSs a
     | .whileE c body => pureE c && pureSs body
     | .foreachE _ _ v body => pureE v && pureSs body
+    | .switchE v cs => pureE v && pureCases cs
     | _ => false
+  def pureCases : List Case → Bool
+    | [] => true
+    | .mk _ es b :: cs => pureEs es && pureSs b && pureCases cs
   def pureS : Stmt → Bool
     | .ret e => pureE e
     | .expr e => stmtE e
@@ -46,6 +50,18 @@ def resetVal : Value → Res
   | .iterating inner _ => .ok inner
   | .nil => .error .panic
   | _ => err "notIterable"
+
+/-- what OpCase decides: same type and text; else, for a regexp case, the match; else false -/
+def caseOp (M : Machine) (val caseVal : Value) : Except Err (Value × Str) :=
+  if sameTypeAndText val caseVal then .ok (.bool true, [])
+  else if caseVal.isType .REGEXP then callMatch M val caseVal
+  else .ok (.bool false, [])
+
+/-- how the tests of a switch end: the switch is over (a block ran, or something failed), or no case
+    matched so far -/
+inductive ArmOut
+  | done (o : Outcome)
+  | next (env : Env) (out : Str)
 
 mutual
   /-- big-step semantics of statements, with a step budget for loops: a statement runs after the one
@@ -81,7 +97,48 @@ mutual
           match resetVal iv with
           | .ok it => execIter M obj f idx x body it 0 env.addScope o
           | .error e => .failed e env.addScope o
+    | f + 1, .switchE v cs, env, out =>
+        match execArms M obj f v cs env out with
+        | .done o => o
+        | .next env' out' => execDefaults M obj f cs env' out'
     | _ + 1, _, env, out => .failed .unsupported env out
+  /-- the non-default cases of a switch in source order: the first case expression that matches the value
+      (which is evaluated anew for every test) selects the block; after it the switch is over -/
+  def execArms (M : Machine) (obj : HostVal) : Nat → Expr → List Case → Env → Str → ArmOut
+    | 0, _, _, _, _ => .done .diverged
+    | _ + 1, _, [], env, out => .next env out
+    | f + 1, v, .mk isDef es b :: rest, env, out =>
+        if isDef then execArms M obj f v rest env out
+        else
+          match execArm M obj f v es b env out with
+          | .done o => .done o
+          | .next env' out' => execArms M obj f v rest env' out'
+  /-- the expressions of one `case a, b, c { … }`, left to right -/
+  def execArm (M : Machine) (obj : HostVal) : Nat → Expr → List Expr → List Stmt → Env → Str → ArmOut
+    | 0, _, _, _, _, _ => .done .diverged
+    | _ + 1, _, [], _, env, out => .next env out
+    | f + 1, v, e :: es, b, env, out =>
+        match evalE M obj env v out with
+        | (.error x, o) => .done (.failed x env o)
+        | (.ok vv, o1) =>
+          match evalE M obj env e o1 with
+          | (.error x, o) => .done (.failed x env o)
+          | (.ok ev, o2) =>
+            match caseOp M vv ev with
+            | .error x => .done (.failed x env o2)
+            | .ok (t, o3) =>
+              if t.truthy then .done (execSs M obj f b env (o2 ++ o3))
+              else execArm M obj f v es b env (o2 ++ o3)
+  /-- the default blocks (reached when no case matched), in source order -/
+  def execDefaults (M : Machine) (obj : HostVal) : Nat → List Case → Env → Str → Outcome
+    | 0, _, _, _ => .diverged
+    | _ + 1, [], env, out => .normal env out
+    | f + 1, .mk isDef _ b :: rest, env, out =>
+        if isDef then
+          match execSs M obj f b env out with
+          | .normal env' o' => execDefaults M obj f rest env' o'
+          | other => other
+        else execDefaults M obj f rest env out
   /-- the turns of a foreach loop over `it`, from offset `k`: each element is bound (with its index or
       key when an index variable was given) in the loop's scope and the body runs; when no element is left
       the loop's scope is closed -/
@@ -122,6 +179,46 @@ def afterS (M : Machine) (obj : HostVal) (code : Bytes) (fuel ip : Nat) (stack :
   | .returned v env out => (.ok v, ⟨env, out, polls, depth⟩)
   | .failed e env out => (.error e, ⟨env, out, polls, depth⟩)
   | .diverged => (.error .outOfFuel, ⟨⟨[], []⟩, [], polls, depth⟩)
+
+/-- where the VM stands after the tests of a switch: at `endPos` if the switch is over, at `nextPos` if
+    nothing matched -/
+def afterA (M : Machine) (obj : HostVal) (code : Bytes) (fuel endPos nextPos : Nat) (stack : List Value)
+    (polls depth : Nat) : ArmOut → Res × RunSt
+  | .done o => afterS M obj code fuel endPos stack polls depth o
+  | .next env out => loop M obj code fuel nextPos stack ⟨env, out, polls, depth⟩
+
+theorem step_case_ok (M : Machine) (obj : HostVal) (len : Nat) (rb : Bytes → RunSt → Res × RunSt) (arg next : Nat)
+    (caseVal val t : Value) (o : Str) (stack : List Value) (st : RunSt) (h : caseOp M val caseVal = .ok (t, o)) :
+    step M obj len rb Op.case.toNat arg next (caseVal :: val :: stack) st =
+      .cont next (t :: stack) { st with out := st.out ++ o } := by
+  have : Op.ofNat? Op.case.toNat = some .case := rfl
+  simp only [step, this, isBinary]
+  unfold caseOp at h
+  by_cases h1 : sameTypeAndText val caseVal = true
+  · simp only [h1, ↓reduceIte, Except.ok.injEq, Prod.mk.injEq] at h
+    obtain ⟨rfl, rfl⟩ := h
+    simp [h1]
+  · simp only [h1, Bool.false_eq_true, ↓reduceIte] at h
+    by_cases h2 : caseVal.isType .REGEXP = true
+    · simp only [h2, ↓reduceIte] at h
+      simp [h1, h2, h]
+    · simp only [h2, Bool.false_eq_true, ↓reduceIte, Except.ok.injEq, Prod.mk.injEq] at h
+      obtain ⟨rfl, rfl⟩ := h
+      simp [h1, h2]
+
+theorem step_case_err (M : Machine) (obj : HostVal) (len : Nat) (rb : Bytes → RunSt → Res × RunSt) (arg next : Nat)
+    (caseVal val : Value) (e : Err) (stack : List Value) (st : RunSt) (h : caseOp M val caseVal = .error e) :
+    step M obj len rb Op.case.toNat arg next (caseVal :: val :: stack) st = .halt (.error e) st := by
+  have : Op.ofNat? Op.case.toNat = some .case := rfl
+  simp only [step, this, isBinary]
+  unfold caseOp at h
+  by_cases h1 : sameTypeAndText val caseVal = true
+  · simp [h1] at h
+  · simp only [h1, Bool.false_eq_true, ↓reduceIte] at h
+    by_cases h2 : caseVal.isType .REGEXP = true
+    · simp only [h2, ↓reduceIte] at h
+      simp [h1, h2, h]
+    · simp [h2] at h
 
 theorem step_set (M : Machine) (obj : HostVal) (len : Nat) (rb : Bytes → RunSt → Res × RunSt) (arg next : Nat)
     (name val : Value) (stack : List Value) (st : RunSt) :
@@ -264,8 +361,35 @@ structure SIH (f : Nat) : Prop where
         afterS M obj code fuel (base + (Expr.foreachE idx x v body).size) stack (polls + k') depth
           (execIter M obj f idx x body it k env out)
 
+  /-- the tests of one `case a, b, c { … }` -/
+  Rm : ∀ (v : Expr) (es : List Expr) (b : List Stmt) (base endPos : Nat) (cst : CState) (r : List Instr × CState),
+      pureE v = true → pureEs es = true → pureSs b = true →
+      compileArm (fun b s => compileExpr v b s) v.size (fun bs s => compileStmts b bs s) (Stmt.sizes b) es base endPos cst = .ok r →
+      CodeAt code base r.1 → (∃ ex, M.consts = r.2.consts ++ ex) → endPos < code.length →
+      base + Case.armSize v.size (Stmt.sizes b) es ≤ endPos →
+      ∀ (stack : List Value) (env : Env) (out : Str) (polls depth : Nat), execArm M obj f v es b env out ≠ .done .diverged →
+      ∃ n k, ∀ fuel, loop M obj code (fuel + n) base stack ⟨env, out, polls, depth⟩ =
+        afterA M obj code fuel endPos (base + Case.armSize v.size (Stmt.sizes b) es) stack (polls + k) depth
+          (execArm M obj f v es b env out)
+  /-- the non-default cases of a switch -/
+  Am : ∀ (v : Expr) (cs : List Case) (base endPos : Nat) (cst : CState) (r : List Instr × CState),
+      pureE v = true → pureCases cs = true →
+      compileArms (fun b s => compileExpr v b s) v.size cs base endPos cst = .ok r →
+      CodeAt code base r.1 → (∃ ex, M.consts = r.2.consts ++ ex) → endPos < code.length →
+      base + Case.armsSize v.size cs ≤ endPos →
+      ∀ (stack : List Value) (env : Env) (out : Str) (polls depth : Nat), execArms M obj f v cs env out ≠ .done .diverged →
+      ∃ n k, ∀ fuel, loop M obj code (fuel + n) base stack ⟨env, out, polls, depth⟩ =
+        afterA M obj code fuel endPos (base + Case.armsSize v.size cs) stack (polls + k) depth
+          (execArms M obj f v cs env out)
+  /-- the default blocks -/
+  Dm : ∀ (cs : List Case) (base : Nat) (cst : CState) (r : List Instr × CState), pureCases cs = true →
+      compileDefaults cs base cst = .ok r → CodeAt code base r.1 → (∃ ex, M.consts = r.2.consts ++ ex) →
+      ∀ (stack : List Value) (env : Env) (out : Str) (polls depth : Nat), execDefaults M obj f cs env out ≠ .diverged →
+      ∃ n k, ∀ fuel, loop M obj code (fuel + n) base stack ⟨env, out, polls, depth⟩ =
+        afterS M obj code fuel (base + Case.defaultsSize cs) stack (polls + k) depth (execDefaults M obj f cs env out)
+
 theorem SIH_zero : SIH M obj code 0 := by
-  constructor <;> intros <;> simp_all [execE, execS, execSs, execIter]
+  constructor <;> intros <;> simp_all [execE, execS, execSs, execIter, execArms, execArm, execDefaults]
 
 
 variable {M obj code}
@@ -731,8 +855,347 @@ theorem step_E (ctx : Ctx M code) (f : Nat) (ih : SIH M obj code f) :
           intro fuel
           rw [ih2 fuel]
           simp [hrv, Nat.add_assoc]
+  | switchE v cs =>
+    simp only [stmtE, Bool.and_eq_true] at hpure
+    simp only [compileExpr, bind_ok_eq, pure, Except.pure] at h
+    obtain ⟨st0, h0, ⟨ca, st1⟩, h1, ⟨cd, st2⟩, h2, h3⟩ := h
+    cases h3
+    have s1 := compileArms_size (fun b s => compileExpr v b s) v.size (fun bb s r hr => compileExpr_size v bb s r hr) cs _ _ _ _ h1
+    have s2 := compileDefaults_size cs _ _ _ h2
+    have r2 := compileDefaults_R cs _ _ _ h2
+    simp only at s1 s2 r2
+    have hbound := hc.bound
+    simp only [codeSize_append, codeSize_cons, codeSize_nil, s1, s2, Instr.size, Op.length] at hbound
+    have hca : CodeAt code base ca := hc.left.left
+    have hcd : CodeAt code (base + Case.armsSize v.size cs) cd := by
+      have := hc.left.right; rwa [s1] at this
+    have hph : CodeAt code (base + Case.armsSize v.size cs + Case.defaultsSize cs) [⟨.placeholder, 0⟩] := by
+      have := hc.right
+      simp only [codeSize_append, s1, s2] at this
+      exact this.cast (by omega)
+    have hsz : (Expr.switchE v cs).size = Case.armsSize v.size cs + Case.defaultsSize cs + 1 := by simp [Expr.size]
+    have hend : base + Case.armsSize v.size cs + Case.defaultsSize cs < code.length := by omega
+    -- one placeholder turn at the end of the switch
+    have hfin : ∀ (n k : Nat) (env' : Env) (o' : Str),
+        (∀ fuel, loop M obj code (fuel + n) base stack ⟨env, out, polls, depth⟩ =
+          loop M obj code fuel (base + Case.armsSize v.size cs + Case.defaultsSize cs) stack ⟨env', o', polls + k, depth⟩) →
+        ∀ fuel, loop M obj code (fuel + (1 + n)) base stack ⟨env, out, polls, depth⟩ =
+          afterS M obj code fuel (base + (Expr.switchE v cs).size) stack (polls + (k + 1)) depth (.normal env' o') := by
+      intro n k env' o' hrun
+      apply finish_instr hrun hph ctx.nd (Or.inr rfl) 0 (by simp [storedArg, Op.length])
+      intro fuel
+      rw [step_placeholder]
+      simp [afterS, hsz, Instr.size, Op.length, Nat.add_assoc]
+    simp only [execE] at hnd ⊢
+    have hnd1 : execArms M obj f v cs env out ≠ .done .diverged := by
+      intro hx; rw [hx] at hnd; exact hnd rfl
+    obtain ⟨n1, k1, ih1⟩ := ih.Am v cs base _ _ _ hpure.1 hpure.2 h1 hca (pool_trans hp r2.ext) hend (by omega)
+      stack env out polls depth hnd1
+    cases ha : execArms M obj f v cs env out with
+    | done o =>
+      simp only [ha] at hnd ⊢
+      cases o with
+      | diverged => exact absurd rfl hnd
+      | returned rv env' o' => exact ⟨n1, k1, fun fuel => by rw [ih1 fuel, ha]; simp [afterA, afterS]⟩
+      | failed x env' o' => exact ⟨n1, k1, fun fuel => by rw [ih1 fuel, ha]; simp [afterA, afterS]⟩
+      | normal env' o' =>
+        exact ⟨1 + n1, k1 + 1, hfin n1 k1 env' o' (fun fuel => by rw [ih1 fuel, ha]; rfl)⟩
+    | next env' out' =>
+      simp only [ha] at hnd ⊢
+      have hrun1 : ∀ fuel, loop M obj code (fuel + n1) base stack ⟨env, out, polls, depth⟩ =
+          loop M obj code fuel (base + Case.armsSize v.size cs) stack ⟨env', out', polls + k1, depth⟩ := by
+        intro fuel; rw [ih1 fuel, ha]; rfl
+      obtain ⟨n2, k2, ih2⟩ := ih.Dm cs _ _ _ hpure.2 h2 hcd hp stack env' out' (polls + k1) depth hnd
+      cases hb : execDefaults M obj f cs env' out' with
+      | diverged => exact absurd hb hnd
+      | returned rv env2 o2 =>
+        refine ⟨n2 + n1, k1 + k2, ?_⟩
+        apply chain hrun1 n2
+        intro fuel; rw [ih2 fuel, hb]; simp [afterS, Nat.add_assoc]
+      | failed x env2 o2 =>
+        refine ⟨n2 + n1, k1 + k2, ?_⟩
+        apply chain hrun1 n2
+        intro fuel; rw [ih2 fuel, hb]; simp [afterS, Nat.add_assoc]
+      | normal env2 o2 =>
+        have hrun2 : ∀ fuel, loop M obj code (fuel + (n2 + n1)) base stack ⟨env, out, polls, depth⟩ =
+            loop M obj code fuel (base + Case.armsSize v.size cs + Case.defaultsSize cs) stack ⟨env2, o2, polls + (k1 + k2), depth⟩ := by
+          apply chain hrun1 n2
+          intro fuel; rw [ih2 fuel, hb]; simp [afterS, Nat.add_assoc]
+        exact ⟨1 + (n2 + n1), k1 + k2 + 1, hfin _ _ env2 o2 hrun2⟩
   | _ => simp [stmtE] at hpure
 
+
+
+theorem step_Rm (ctx : Ctx M code) (f : Nat) (ih : SIH M obj code f) :
+    ∀ (v : Expr) (es : List Expr) (b : List Stmt) (base endPos : Nat) (cst : CState) (r : List Instr × CState),
+      pureE v = true → pureEs es = true → pureSs b = true →
+      compileArm (fun b s => compileExpr v b s) v.size (fun bs s => compileStmts b bs s) (Stmt.sizes b) es base endPos cst = .ok r →
+      CodeAt code base r.1 → (∃ ex, M.consts = r.2.consts ++ ex) → endPos < code.length →
+      base + Case.armSize v.size (Stmt.sizes b) es ≤ endPos →
+      ∀ (stack : List Value) (env : Env) (out : Str) (polls depth : Nat), execArm M obj (f + 1) v es b env out ≠ .done .diverged →
+      ∃ n k, ∀ fuel, loop M obj code (fuel + n) base stack ⟨env, out, polls, depth⟩ =
+        afterA M obj code fuel endPos (base + Case.armSize v.size (Stmt.sizes b) es) stack (polls + k) depth
+          (execArm M obj (f + 1) v es b env out) := by
+  intro v es b base endPos cst r hpv hpes hpb h hc hp hend hle stack env out polls depth hnd
+  have hlen := ctx.len
+  cases es with
+  | nil =>
+    simp only [compileArm, pure, Except.pure] at h
+    cases h
+    exact ⟨0, 0, fun fuel => by simp [execArm, afterA, Case.armSize]⟩
+  | cons e rest =>
+    simp only [pureEs, Bool.and_eq_true] at hpes
+    simp only [compileArm, bind_ok_eq, pure, Except.pure] at h
+    obtain ⟨⟨cv', st1⟩, h1, ⟨ce, st2⟩, h2, ⟨cb, st3⟩, h3, ⟨cr, st4⟩, h4, h5⟩ := h
+    cases h5
+    have s1 := compileExpr_size v base cst _ h1
+    have s2 := compileExpr_size e _ _ _ h2
+    have s3 := compileStmts_size b _ _ _ h3
+    have s4 := compileArm_size (fun b s => compileExpr v b s) v.size (fun bb s r hr => compileExpr_size v bb s r hr)
+      (fun bs s => compileStmts b bs s) (Stmt.sizes b) (fun bs s r hr => compileStmts_size b bs s r hr) rest _ _ _ _ h4
+    have r2 := compileExpr_R e _ _ _ h2
+    have r3 := compileStmts_R b _ _ _ h3
+    have r4 := compileArm_R (fun b s => compileExpr v b s) v.size (fun bb s r hr => compileExpr_R v bb s r hr)
+      (fun bs s => compileStmts b bs s) (Stmt.sizes b) (fun bs s r hr => compileStmts_R b bs s r hr) rest _ _ _ _ h4
+    simp only at s1 s2 s3 s4 r2 r3 r4
+    have p3 : ∃ ex, M.consts = st3.consts ++ ex := pool_trans hp r4.ext
+    have p2 : ∃ ex, M.consts = st2.consts ++ ex := pool_trans p3 r3.ext
+    have p1 : ∃ ex, M.consts = st1.consts ++ ex := pool_trans p2 r2.ext
+    have hbound := hc.bound
+    simp only [codeSize_append, codeSize_cons, codeSize_nil, s1, s2, s3, s4, Instr.size, Op.length] at hbound
+    -- where the pieces are
+    have hcv : CodeAt code base cv' := hc.left.left.left.left.left
+    have hce : CodeAt code (base + v.size) ce := by
+      have := hc.left.left.left.left.right; rwa [s1] at this
+    have hcase : CodeAt code (base + v.size + e.size) [⟨.case, 0⟩, ⟨.jumpIfFalse, base + v.size + e.size + 1 + 3 + Stmt.sizes b + 3⟩] := by
+      have := hc.left.left.left.right
+      simp only [codeSize_append, s1, s2] at this
+      exact this.cast (by omega)
+    have hjif := hcase.tail
+    simp only [Instr.size, Op.length] at hjif
+    have hcb : CodeAt code (base + v.size + e.size + 1 + 3) cb := by
+      have := hc.left.left.right
+      simp only [codeSize_append, codeSize_cons, codeSize_nil, s1, s2, Instr.size, Op.length] at this
+      exact this.cast (by omega)
+    have hjmp : CodeAt code (base + v.size + e.size + 1 + 3 + Stmt.sizes b) [⟨.jump, endPos⟩] := by
+      have := hc.left.right
+      simp only [codeSize_append, codeSize_cons, codeSize_nil, s1, s2, s3, Instr.size, Op.length] at this
+      exact this.cast (by omega)
+    have hcr : CodeAt code (base + v.size + e.size + 1 + 3 + Stmt.sizes b + 3) cr := by
+      have := hc.right
+      simp only [codeSize_append, codeSize_cons, codeSize_nil, s1, s2, s3, Instr.size, Op.length] at this
+      exact this.cast (by omega)
+    have hsz : Case.armSize v.size (Stmt.sizes b) (e :: rest) =
+        v.size + e.size + 1 + 3 + Stmt.sizes b + 3 + Case.armSize v.size (Stmt.sizes b) rest := by simp [Case.armSize]
+    rw [hsz] at hle
+    have ha1 : storedArg ⟨.jumpIfFalse, base + v.size + e.size + 1 + 3 + Stmt.sizes b + 3⟩ = base + v.size + e.size + 1 + 3 + Stmt.sizes b + 3 := by
+      show (if Op.jumpIfFalse.length = 3 then (base + v.size + e.size + 1 + 3 + Stmt.sizes b + 3) % 65536 else 0) = _
+      rw [if_pos (by rfl : Op.jumpIfFalse.length = 3), Nat.mod_eq_of_lt (by omega)]
+    have ha2 : storedArg ⟨.jump, endPos⟩ = endPos := by
+      show (if Op.jump.length = 3 then endPos % 65536 else 0) = _
+      rw [if_pos (by rfl : Op.jump.length = 3), Nat.mod_eq_of_lt (by omega)]
+    obtain ⟨n1, k1, ih1⟩ := expr_ok v base cst _ hpv h1 M obj code ctx hcv p1 stack env out polls depth
+    simp only [execArm] at hnd ⊢
+    cases hev : evalE M obj env v out with
+    | mk res o1 =>
+      cases res with
+      | error x => exact ⟨n1, k1, fun fuel => by rw [ih1 fuel, hev]; simp [after, afterA, afterS]⟩
+      | ok vv =>
+        simp only [hev] at hnd
+        have hrun1 : ∀ fuel, loop M obj code (fuel + n1) base stack ⟨env, out, polls, depth⟩ =
+            loop M obj code fuel (base + v.size) (vv :: stack) ⟨env, o1, polls + k1, depth⟩ := by
+          intro fuel; rw [ih1 fuel, hev]; rfl
+        obtain ⟨n2, k2, ih2⟩ := expr_ok e _ _ _ hpes.1 h2 M obj code ctx hce p2 (vv :: stack) env o1 (polls + k1) depth
+        cases hev2 : evalE M obj env e o1 with
+        | mk res2 o2 =>
+          cases res2 with
+          | error x =>
+            refine ⟨n2 + n1, k1 + k2, ?_⟩
+            apply chain hrun1 n2
+            intro fuel; rw [ih2 fuel]; simp [hev2, after, afterA, afterS, Nat.add_assoc]
+          | ok ev =>
+            simp only [hev2] at hnd ⊢
+            have hrun2 : ∀ fuel, loop M obj code (fuel + (n2 + n1)) base stack ⟨env, out, polls, depth⟩ =
+                loop M obj code fuel (base + v.size + e.size) (ev :: vv :: stack) ⟨env, o2, polls + k1 + k2, depth⟩ := by
+              apply chain hrun1 n2
+              intro fuel; rw [ih2 fuel, hev2]; rfl
+            cases hco : caseOp M vv ev with
+            | error x =>
+              refine ⟨1 + (n2 + n1), k1 + k2 + 1, ?_⟩
+              apply finish_instr hrun2 hcase ctx.nd (Or.inr rfl) 0 (by simp [storedArg, Op.length])
+              intro fuel
+              rw [step_case_err M obj _ _ _ _ _ _ x _ _ hco]
+              simp [hco, afterA, afterS, Nat.add_assoc]
+            | ok p =>
+              obtain ⟨t, o3⟩ := p
+              simp only [hco] at hnd ⊢
+              have hrun3 : ∀ fuel, loop M obj code (fuel + (1 + (n2 + n1))) base stack ⟨env, out, polls, depth⟩ =
+                  loop M obj code fuel (base + v.size + e.size + 1) (t :: stack) ⟨env, o2 ++ o3, polls + k1 + k2 + 1, depth⟩ := by
+                apply finish_instr hrun2 hcase ctx.nd (Or.inr rfl) 0 (by simp [storedArg, Op.length])
+                intro fuel
+                rw [step_case_ok M obj _ _ _ _ _ _ t o3 _ _ hco]
+                simp [Instr.size, Op.length]
+              by_cases ht : t.truthy = true
+              · simp only [ht, ↓reduceIte] at hnd ⊢
+                have hrun4 : ∀ fuel, loop M obj code (fuel + (1 + (1 + (n2 + n1)))) base stack ⟨env, out, polls, depth⟩ =
+                    loop M obj code fuel (base + v.size + e.size + 1 + 3) stack ⟨env, o2 ++ o3, polls + k1 + k2 + 1 + 1, depth⟩ := by
+                  apply finish_instr hrun3 hjif ctx.nd (Or.inl ha1) _ ha1.symm
+                  intro fuel
+                  rw [step_jif M obj _ _ _ _ _ _ t (by omega)]
+                  simp [ht, Instr.size, Op.length]
+                have hnd' : execSs M obj f b env (o2 ++ o3) ≠ .diverged := fun hd => hnd (by rw [hd])
+                obtain ⟨n3, k3, ih3⟩ := ih.Ss b _ _ _ hpb h3 hcb p3 stack env (o2 ++ o3) (polls + k1 + k2 + 1 + 1) depth hnd'
+                cases hb : execSs M obj f b env (o2 ++ o3) with
+                | diverged => exact absurd hb hnd'
+                | returned rv env' o' =>
+                  refine ⟨n3 + (1 + (1 + (n2 + n1))), k1 + k2 + 1 + 1 + k3, ?_⟩
+                  apply chain hrun4 n3
+                  intro fuel; rw [ih3 fuel, hb]; simp [afterA, afterS, Nat.add_assoc]
+                | failed x env' o' =>
+                  refine ⟨n3 + (1 + (1 + (n2 + n1))), k1 + k2 + 1 + 1 + k3, ?_⟩
+                  apply chain hrun4 n3
+                  intro fuel; rw [ih3 fuel, hb]; simp [afterA, afterS, Nat.add_assoc]
+                | normal env' o' =>
+                  have hrun5 : ∀ fuel, loop M obj code (fuel + (n3 + (1 + (1 + (n2 + n1))))) base stack ⟨env, out, polls, depth⟩ =
+                      loop M obj code fuel (base + v.size + e.size + 1 + 3 + Stmt.sizes b) stack ⟨env', o', polls + k1 + k2 + 1 + 1 + k3, depth⟩ := by
+                    apply chain hrun4 n3
+                    intro fuel; rw [ih3 fuel, hb]; rfl
+                  refine ⟨1 + (n3 + (1 + (1 + (n2 + n1)))), k1 + k2 + 1 + 1 + k3 + 1, ?_⟩
+                  apply finish_instr hrun5 hjmp ctx.nd (Or.inl ha2) _ ha2.symm
+                  intro fuel
+                  rw [step_jump M obj _ _ _ _ _ _ hend]
+                  simp [afterA, afterS, Nat.add_assoc]
+              · simp only [ht, Bool.false_eq_true, ↓reduceIte] at hnd ⊢
+                have hrun4 : ∀ fuel, loop M obj code (fuel + (1 + (1 + (n2 + n1)))) base stack ⟨env, out, polls, depth⟩ =
+                    loop M obj code fuel (base + v.size + e.size + 1 + 3 + Stmt.sizes b + 3) stack ⟨env, o2 ++ o3, polls + k1 + k2 + 1 + 1, depth⟩ := by
+                  apply finish_instr hrun3 hjif ctx.nd (Or.inl ha1) _ ha1.symm
+                  intro fuel
+                  rw [step_jif M obj _ _ _ _ _ _ t (by omega)]
+                  simp [ht]
+                obtain ⟨n3, k3, ih3⟩ := ih.Rm v rest b _ endPos _ _ hpv hpes.2 hpb h4 hcr hp hend (by omega) stack env (o2 ++ o3) (polls + k1 + k2 + 1 + 1) depth hnd
+                refine ⟨n3 + (1 + (1 + (n2 + n1))), k1 + k2 + 1 + 1 + k3, ?_⟩
+                apply chain hrun4 n3
+                intro fuel
+                rw [ih3 fuel, hsz]
+                simp [Nat.add_assoc]
+
+theorem step_Am (ctx : Ctx M code) (f : Nat) (ih : SIH M obj code f) :
+    ∀ (v : Expr) (cs : List Case) (base endPos : Nat) (cst : CState) (r : List Instr × CState),
+      pureE v = true → pureCases cs = true →
+      compileArms (fun b s => compileExpr v b s) v.size cs base endPos cst = .ok r →
+      CodeAt code base r.1 → (∃ ex, M.consts = r.2.consts ++ ex) → endPos < code.length →
+      base + Case.armsSize v.size cs ≤ endPos →
+      ∀ (stack : List Value) (env : Env) (out : Str) (polls depth : Nat), execArms M obj (f + 1) v cs env out ≠ .done .diverged →
+      ∃ n k, ∀ fuel, loop M obj code (fuel + n) base stack ⟨env, out, polls, depth⟩ =
+        afterA M obj code fuel endPos (base + Case.armsSize v.size cs) stack (polls + k) depth
+          (execArms M obj (f + 1) v cs env out) := by
+  intro v cs base endPos cst r hpv hpc h hc hp hend hle stack env out polls depth hnd
+  cases cs with
+  | nil =>
+    simp only [compileArms, pure, Except.pure] at h
+    cases h
+    exact ⟨0, 0, fun fuel => by simp [execArms, afterA, Case.armsSize]⟩
+  | cons c rest =>
+    obtain ⟨isDef, es, b⟩ := c
+    simp only [pureCases, Bool.and_eq_true] at hpc
+    simp only [compileArms] at h
+    simp only [execArms] at hnd ⊢
+    cases isDef with
+    | true =>
+      simp only [↓reduceIte] at h hnd ⊢
+      have hsz : Case.armsSize v.size (Case.mk true es b :: rest) = Case.armsSize v.size rest := by simp [Case.armsSize]
+      rw [hsz] at hle ⊢
+      exact ih.Am v rest base endPos cst r hpv hpc.2 h hc hp hend hle stack env out polls depth hnd
+    | false =>
+      simp only [Bool.false_eq_true, ↓reduceIte, bind_ok_eq, pure, Except.pure] at h hnd ⊢
+      obtain ⟨⟨ca, st1⟩, h1, ⟨cr, st2⟩, h2, h3⟩ := h
+      cases h3
+      have s1 := compileArm_size (fun b s => compileExpr v b s) v.size (fun bb s r hr => compileExpr_size v bb s r hr)
+        (fun bs s => compileStmts b bs s) (Stmt.sizes b) (fun bs s r hr => compileStmts_size b bs s r hr) es _ _ _ _ h1
+      have r2 := compileArms_R (fun b s => compileExpr v b s) v.size (fun bb s r hr => compileExpr_R v bb s r hr) rest _ _ _ _ h2
+      simp only at s1 r2
+      have hsz : Case.armsSize v.size (Case.mk false es b :: rest) =
+          Case.armSize v.size (Stmt.sizes b) es + Case.armsSize v.size rest := by simp [Case.armsSize]
+      rw [hsz] at hle ⊢
+      have hca : CodeAt code base ca := hc.left
+      have hcr : CodeAt code (base + Case.armSize v.size (Stmt.sizes b) es) cr := by
+        have := hc.right; rwa [s1] at this
+      have hnd1 : execArm M obj f v es b env out ≠ .done .diverged := by
+        intro hx; rw [hx] at hnd; exact hnd rfl
+      obtain ⟨n1, k1, ih1⟩ := ih.Rm v es b base endPos cst _ hpv hpc.1.1 hpc.1.2 h1 hca (pool_trans hp r2.ext) hend (by omega)
+        stack env out polls depth hnd1
+      cases ha : execArm M obj f v es b env out with
+      | done o =>
+        refine ⟨n1, k1, fun fuel => ?_⟩
+        rw [ih1 fuel, ha]
+        simp [afterA]
+      | next env' out' =>
+        simp only [ha] at hnd ⊢
+        have hrun1 : ∀ fuel, loop M obj code (fuel + n1) base stack ⟨env, out, polls, depth⟩ =
+            loop M obj code fuel (base + Case.armSize v.size (Stmt.sizes b) es) stack ⟨env', out', polls + k1, depth⟩ := by
+          intro fuel; rw [ih1 fuel, ha]; rfl
+        obtain ⟨n2, k2, ih2⟩ := ih.Am v rest _ endPos _ _ hpv hpc.2 h2 hcr hp hend (by omega) stack env' out' (polls + k1) depth hnd
+        refine ⟨n2 + n1, k1 + k2, ?_⟩
+        apply chain hrun1 n2
+        intro fuel
+        rw [ih2 fuel]
+        simp [Nat.add_assoc]
+
+theorem step_Dm (ctx : Ctx M code) (f : Nat) (ih : SIH M obj code f) :
+    ∀ (cs : List Case) (base : Nat) (cst : CState) (r : List Instr × CState), pureCases cs = true →
+      compileDefaults cs base cst = .ok r → CodeAt code base r.1 → (∃ ex, M.consts = r.2.consts ++ ex) →
+      ∀ (stack : List Value) (env : Env) (out : Str) (polls depth : Nat), execDefaults M obj (f + 1) cs env out ≠ .diverged →
+      ∃ n k, ∀ fuel, loop M obj code (fuel + n) base stack ⟨env, out, polls, depth⟩ =
+        afterS M obj code fuel (base + Case.defaultsSize cs) stack (polls + k) depth (execDefaults M obj (f + 1) cs env out) := by
+  intro cs base cst r hpc h hc hp stack env out polls depth hnd
+  cases cs with
+  | nil =>
+    simp only [compileDefaults, pure, Except.pure] at h
+    cases h
+    exact ⟨0, 0, fun fuel => by simp [execDefaults, afterS, Case.defaultsSize]⟩
+  | cons c rest =>
+    obtain ⟨isDef, es, b⟩ := c
+    simp only [pureCases, Bool.and_eq_true] at hpc
+    simp only [compileDefaults] at h
+    simp only [execDefaults] at hnd ⊢
+    cases isDef with
+    | true =>
+      simp only [↓reduceIte, bind_ok_eq, pure, Except.pure] at h hnd ⊢
+      obtain ⟨⟨cb, st1⟩, h1, ⟨cr, st2⟩, h2, h3⟩ := h
+      cases h3
+      have s1 := compileStmts_size b _ _ _ h1
+      have r2 := compileDefaults_R rest _ _ _ h2
+      simp only at s1 r2
+      have hsz : Case.defaultsSize (Case.mk true es b :: rest) = Stmt.sizes b + Case.defaultsSize rest := by
+        simp [Case.defaultsSize]
+      rw [hsz]
+      have hcb : CodeAt code base cb := hc.left
+      have hcr : CodeAt code (base + Stmt.sizes b) cr := by
+        have := hc.right; rwa [s1] at this
+      have hnd1 : execSs M obj f b env out ≠ .diverged := by
+        intro hx; rw [hx] at hnd; exact hnd rfl
+      obtain ⟨n1, k1, ih1⟩ := ih.Ss b base cst _ hpc.1.2 h1 hcb (pool_trans hp r2.ext) stack env out polls depth hnd1
+      cases hb : execSs M obj f b env out with
+      | diverged => exact absurd hb hnd1
+      | returned rv env' o' => exact ⟨n1, k1, fun fuel => by rw [ih1 fuel, hb]; simp [afterS]⟩
+      | failed x env' o' => exact ⟨n1, k1, fun fuel => by rw [ih1 fuel, hb]; simp [afterS]⟩
+      | normal env' o' =>
+        simp only [hb] at hnd ⊢
+        have hrun1 : ∀ fuel, loop M obj code (fuel + n1) base stack ⟨env, out, polls, depth⟩ =
+            loop M obj code fuel (base + Stmt.sizes b) stack ⟨env', o', polls + k1, depth⟩ := by
+          intro fuel; rw [ih1 fuel, hb]; rfl
+        obtain ⟨n2, k2, ih2⟩ := ih.Dm rest _ _ _ hpc.2 h2 hcr hp stack env' o' (polls + k1) depth hnd
+        refine ⟨n2 + n1, k1 + k2, ?_⟩
+        apply chain hrun1 n2
+        intro fuel
+        rw [ih2 fuel]
+        simp [Nat.add_assoc]
+    | false =>
+      simp only [Bool.false_eq_true, ↓reduceIte] at h hnd ⊢
+      have hsz : Case.defaultsSize (Case.mk false es b :: rest) = Case.defaultsSize rest := by
+        simp [Case.defaultsSize]
+      rw [hsz]
+      exact ih.Dm rest base cst r hpc.2 h hc hp stack env out polls depth hnd
 
 theorem step_I (ctx : Ctx M code) (f : Nat) (ih : SIH M obj code f) :
     ∀ (idx x : Str) (v : Expr) (body : List Stmt) (base : Nat) (cst : CState) (r : List Instr × CState),
@@ -876,7 +1339,8 @@ theorem step_I (ctx : Ctx M code) (f : Nat) (ih : SIH M obj code f) :
 /-- **Statements run as the language defines**, for every budget of the semantics -/
 theorem SIH_all (ctx : Ctx M code) : ∀ f, SIH M obj code f
   | 0 => SIH_zero M obj code
-  | f + 1 => ⟨step_E ctx f (SIH_all ctx f), step_S ctx f (SIH_all ctx f), step_Ss ctx f (SIH_all ctx f), step_I ctx f (SIH_all ctx f)⟩
+  | f + 1 => ⟨step_E ctx f (SIH_all ctx f), step_S ctx f (SIH_all ctx f), step_Ss ctx f (SIH_all ctx f), step_I ctx f (SIH_all ctx f),
+      step_Rm ctx f (SIH_all ctx f), step_Am ctx f (SIH_all ctx f), step_Dm ctx f (SIH_all ctx f)⟩
 
 end
 
@@ -895,6 +1359,14 @@ mutual
     | .foreachE i x v b, h => by
       simp only [stmtE, Bool.and_eq_true] at h
       simp [normExpr, normExpr_pure v h.1, normStmts_pure b h.2]
+    | .switchE v cs, h => by
+      simp only [stmtE, Bool.and_eq_true] at h
+      simp [normExpr, normExpr_pure v h.1, normCases_pure cs h.2]
+  theorem normCases_pure : ∀ (cs : List Case), pureCases cs = true → normCases cs = cs
+    | [], _ => rfl
+    | .mk d es b :: cs, h => by
+      simp only [pureCases, Bool.and_eq_true] at h
+      simp [normCases, normExprs_pure es h.1.1, normStmts_pure b h.1.2, normCases_pure cs h.2]
   theorem normStmt_pure : ∀ (s : Stmt), pureS s = true → normStmt s = s
     | .ret e, h => by simp only [pureS] at h; simp [normStmt, normExpr_pure e h]
     | .expr e, h => by simp only [pureS] at h; simp [normStmt, normExpr_stmtE e h]
@@ -912,6 +1384,7 @@ theorem pureS_size_pos : ∀ (s : Stmt), pureS s = true → 1 ≤ s.size
   | .expr (.ifE c cons (some a)), _ => by simp [Stmt.size, Expr.size]
   | .expr (.whileE c b), _ => by simp [Stmt.size, Expr.size]
   | .expr (.foreachE i x v b), _ => by simp [Stmt.size, Expr.size]
+  | .expr (.switchE v cs), _ => by simp [Stmt.size, Expr.size]
 
 /-- the result of a run, according to how the script's top-level block ends: running off the end yields
     null, `return` its value, an error that error -/
